@@ -108,7 +108,9 @@ LEVEL_TEXT["C09"] = ("Theorems by induction over every sequence of reset / step 
                      "info = id; done ↔ budget ∨ nothing left ∨ all widths 0; reset forgets everything but the minimal information of the new game; invalid calls raise and leave what the code "
                      "leaves. Computer and gap are parameters; Props/Compose instantiates them with the model's real computers (sa, sac, sam r) and real gap functions (l1, l∞, l2², exploitability; l2 over ℝ) and "
                      "DISCHARGES the hypotheses from C01/C04/C07/C08: reward defined and ≤ 0 at every reachable state of a game of the class, 0 at full knowledge, non-decreasing along reveals, valid calls "
-                     "never raise, step-then-unstep restores reward / observation / mask / done. Tie: every reveal order at n=3, random walks at n=4,5 on the real ICG_Gym.")
+                     "never raise, step-then-unstep restores reward / observation / mask / done. 'Never positive, up to float rounding': with ANY rounded subtraction and any addition that keeps non-negative operands "
+                     "non-negative the rounded l1 / l∞ gaps are ≥ 0 exactly, so the reward is ≤ 0 with no slack (Props/FloatErrorNorms); for the exploitability gap the slack is the one of "
+                     "ICG.ApproxShapley.exploitability_nonneg_approx. Tie: every reveal order at n=3, random walks at n=4,5 on the real ICG_Gym.")
 LEVEL_TEXT["C13"] = ("Theorems at every state satisfying the C09 invariant: greedy / worst-greedy return the lowest-index valid action attaining the max / min immediate reward, largest the lowest-index "
                      "valid action of maximal size, random some valid action, and the environment afterwards equals the environment before (EnvEq, via the undo theorem); expected-greedy never "
                      "repeats, each extension minimises the mean gap among the candidates, its curve is non-increasing for monotone gaps, ≥ the exhaustive optimum and equal to it for 0 and 1 reveals. "
